@@ -415,11 +415,17 @@ def _body_calls_deep(crate, b, pats, depth):
     return False
 
 
+KNOWN_BOOLS = {}        # id(body) -> {local: bool}: call results whose value is fixed by the specialisation in progress
+
+
 def _bool_vals(body, l, at, R, depth):
     """Possible constant values of bool local l at block `at`, considering only definitions inside R ('?' = unknown)."""
     vals = set()
     if depth > 4:
         return {"?"}
+    kb = KNOWN_BOOLS.get(id(body), {})
+    if l in kb:
+        return {kb[l]}
     for d in body.defs().get(l, ()):
         if d["kind"] == "param":
             vals.add("?")
@@ -439,20 +445,92 @@ def _bool_vals(body, l, at, R, depth):
     return vals
 
 
-def specialise(body, avoid):
-    """Fold boolean flags under a set of excluded edges: repeatedly, a switch on a bool local all of whose reaching
-    definitions inside the still-reachable part are the same constant loses its other edge. Returns (reachable, avoid)."""
+def resolve_values(body, op, at, R, depth=0):
+    """Possible values of an operand/place at block `at` when only blocks R execute, following copies and reads of
+    fields of locally built aggregates (`let (a, b) = match x {..}`, `Plan { a, b }`): a set over ('const', v),
+    ('variant', adt, name) and '?'."""
+    if depth > 10 or not isinstance(op, dict):
+        return {"?"}
+    if op.get("k") == "const":
+        return {("const", op.get("v"))} if "v" in op else {"?"}
+    pl = op["place"] if "place" in op else op
+    l, proj = pl["l"], [e for e in pl["p"] if not (isinstance(e, dict) and "dc" in e)]
+    if "*" in proj:
+        return {"?"}
+    out = set()
+    for d in body.defs().get(l, ()):
+        if d["kind"] == "param":
+            return {"?"}
+        if d.get("bb", -1) not in R or not body.def_reaches(d, at) or d.get("via_ref") is not None:
+            continue
+        if d["kind"] != "assign":
+            return {"?"}
+        lp = [e for e in d["lhs"]["p"] if not (isinstance(e, dict) and "dc" in e)]
+        if lp:
+            # a store into a component of the local: relevant only if it is (a prefix of) the component read
+            if lp != proj[:len(lp)]:
+                continue
+            rest = proj[len(lp):]
+        else:
+            rest = proj
+        rv = d["rv"]
+        if rv["k"] == "use":
+            o = rv["op"]
+            if o.get("k") == "const":
+                out |= ({("const", o.get("v"))} if not rest and "v" in o else {"?"})
+            else:
+                out |= resolve_values(body, {"place": {"l": o["place"]["l"], "p": list(o["place"]["p"]) + rest}}, d["bb"], R, depth + 1)
+        elif rv["k"] == "agg":
+            if not rest:
+                out.add(("variant", rv.get("adt") or rv.get("ak"), rv.get("variant")) if rv.get("ak") == "adt" else "?")
+            else:
+                e = rest[0]
+                idx = e.get("f") if isinstance(e, dict) else None
+                if idx is None or idx >= len(rv["ops"]):
+                    return {"?"}
+                o = rv["ops"][idx]
+                if o.get("k") == "const":
+                    out |= ({("const", o.get("v"))} if len(rest) == 1 and "v" in o else {"?"})
+                else:
+                    out |= resolve_values(body, {"place": {"l": o["place"]["l"], "p": list(o["place"]["p"]) + rest[1:]}}, d["bb"], R, depth + 1)
+        else:
+            return {"?"}
+    return out or {"?"}
+
+
+def specialise(body, avoid, crate=None):
+    """Fold flags under a set of excluded edges: repeatedly, a switch on a bool (or, given the crate, on the discriminant
+    of a locally built enum value) all of whose possible values inside the still-reachable part agree loses its other
+    edges. Values are followed through copies and fields of locally built aggregates. Returns (reachable, avoid)."""
     avoid = set(avoid)
     R = body.reach([0], avoid_edges=avoid)
     for _ in range(8):
         changed = False
+        if crate is not None:
+            for sb, t, pl, d in discr_switches(body):
+                if sb not in R:
+                    continue
+                vals = resolve_values(body, {"place": pl}, sb, R)
+                names = {v[2] for v in vals if isinstance(v, tuple) and v[0] == "variant"}
+                if "?" in vals or len(names) != 1 or any(not (isinstance(v, tuple) and v[0] == "variant") for v in vals):
+                    continue
+                adt = next(iter(vals))[1]
+                for tgt, vs in edge_variants(crate, t, adt).items():
+                    if not (names & vs) and (sb, tgt) not in avoid:
+                        avoid.add((sb, tgt))
+                        changed = True
         for sb, t in body.switches():
-            if sb not in R or t["op"].get("k") not in ("copy", "move") or t["op"]["place"]["p"]:
+            if sb not in R or t["op"].get("k") not in ("copy", "move"):
                 continue
             l = t["op"]["place"]["l"]
-            if body.locals[l]["ty"] != "bool":
-                continue
-            vals = _bool_vals(body, l, sb, R, 0)
+            if t["op"]["place"]["p"] or body.locals[l]["ty"] != "bool":
+                if t["op"]["place"].get("ty") != "bool":
+                    continue
+            vals = _bool_vals(body, l, sb, R, 0) if not t["op"]["place"]["p"] else {"?"}
+            if vals - {True, False}:
+                rv_ = resolve_values(body, t["op"], sb, R)
+                if rv_ and all(isinstance(v, tuple) and v[0] == "const" and isinstance(v[1], bool) for v in rv_):
+                    vals = {v[1] for v in rv_}
             zero = [tb for v, tb in t["targets"] if v == 0]
             if vals == {True} and zero and (sb, zero[0]) not in avoid and zero[0] != t["otherwise"]:
                 avoid.add((sb, zero[0]))
@@ -479,7 +557,39 @@ def variant_reach(body, crate, adt, V, place_pred=None, want_avoid=False):
         for tgt, vs in edge_variants(crate, t, adt).items():
             if V not in vs:
                 avoid.add((sb, tgt))
-    R, avoid = specialise(body, avoid)
+    # `x.is_some()` / `x.is_none()` on such a place are variant tests too (Option only)
+    if adt == "std::option::Option":
+        for sb, t in body.switches():
+            if t["op"].get("k") not in ("copy", "move") or t["op"]["place"]["p"]:
+                continue
+            l = t["op"]["place"]["l"]
+            ds = [d for d in body.defs().get(l, ()) if d["kind"] == "call"]
+            if len(ds) != 1 or not ds[0]["call"].matches(r"std::option::Option::<T>::is_(some|none)") or len(body.defs().get(l, ())) != 1:
+                continue
+            c = ds[0]["call"]
+            al = operand_local(c.args[0]) if c.args else None
+            srcs = {(tl, tuple(tp)) for tl, tp in body.ref_origins().get(al, ())} if al is not None else set()
+            hit = any(place_pred({"l": tl, "p": [], "ty": body.locals[tl]["ty"]}) for tl, tp in srcs if not tp) if place_pred else bool(srcs)
+            if not hit:
+                continue
+            zero = [tb for v, tb in t["targets"] if v == 0]
+            if not zero or zero[0] == t["otherwise"]:
+                continue
+            truth = (V == "Some") == (meth(c.path) == "is_some")
+            avoid.add((sb, zero[0]) if truth else (sb, t["otherwise"]))
+        # ... also when the result is first stored in a flag (`let printing = x.is_some() || ..`)
+        known = {}
+        for c in body.calls(r"std::option::Option::<T>::is_(some|none)"):
+            al = operand_local(c.args[0]) if c.args else None
+            srcs = {(tl, tuple(tp)) for tl, tp in body.ref_origins().get(al, ())} if al is not None else set()
+            hit = any(place_pred({"l": tl, "p": [], "ty": body.locals[tl]["ty"]}) for tl, tp in srcs if not tp) if place_pred else False
+            if hit and not c.dest["p"]:
+                known[c.dest["l"]] = (V == "Some") == (meth(c.path) == "is_some")
+        KNOWN_BOOLS[id(body)] = known
+    try:
+        R, avoid = specialise(body, avoid, crate)
+    finally:
+        KNOWN_BOOLS.pop(id(body), None)
     return (R, avoid) if want_avoid else R
 
 
